@@ -422,8 +422,16 @@ handle_boolean(spif_int32_t n, spif_charptr_t val_ptr, unsigned char islong)
 static void
 handle_integer(spif_int32_t n, spif_charptr_t val_ptr)
 {
+    long v;
+
     D_OPTIONS(("Integer option detected\n"));
-    *((int *) SPIFOPT_OPT_VALUE(n)) = strtol((char *) val_ptr, (char **) NULL, 0);
+    v = strtol((char *) val_ptr, (char **) NULL, 0);
+    if (v > INT_MAX || v < INT_MIN) {
+        libast_print_error("value %s of option --%s is out of range\n", val_ptr, SPIFOPT_OPT_LONG(n));
+        CHECK_BAD();
+        return;
+    }
+    *((int *) SPIFOPT_OPT_VALUE(n)) = (int) v;
 }
 
 /**
